@@ -28,7 +28,7 @@ RULE = ("audit histories: simulated election x 2-5 rounds of non-decreasing size
         "number than a card already selected; distinct = hash of (spec, size vectors)")
 REQUIRED = ["histories", "rounds:redraw", "rounds:continue", "append_checked", "monotone_checked", "continue_equals_redraw_checked",
             "round_adds_card_before_already_selected", "round_without_change", "contest_full_hand_count", "style_on", "style_off",
-            "p_decreased", "proved_carried_over"]
+            "p_decreased", "proved_carried_over", "fine_grained_histories"]
 ASSUMPTIONS = ["polling is only generated without style (the library gives it the whole sample); without style the sample "
                "is the first n cards in sample-number order, so the append clause is well-defined there too"]
 N_CASES = {"quick": 8000, "thorough": 64000}
@@ -83,6 +83,17 @@ def run_shard(spec, rec):
     for i in range(spec["n"]):
         es = E.gen_spec(rng, n_contests=rng.choice((1, 2, 2, 3, 4)), n_cards=rng.choice((8, 12, 20, 30, 45)),
                         error_rate=rng.choice((0, 0.05, 0.3)), style=(True if i % 4 else False))
+        if i % 5 == 4:
+            # fine-grained escalation of a noisy polling audit with a variance-driven bet/estimator: many rounds of 1-3
+            # extra cards, so that any retroactive change of earlier bets has a chance to move the running minimum
+            es = E.gen_spec(rng, n_contests=1, n_cards=rng.choice((40, 60)), kinds=("plurality",), style=False,
+                            audit_types=("POLLING",), error_rate=0, phantom_rate=0, allow_wrong=False)
+            con = es["contests"]["con1"]
+            if rng.random() < 0.5:
+                con.update(test="betting_mart", estim=None, bet="agrapa", test_kwargs={"c_grapa_0": 0.75, "c_grapa_grow": 1})
+            else:
+                con.update(test="alpha_mart", estim="shrink_trunc", bet=None, test_kwargs={"d": 10, "f": rng.choice((0.25, 1.0)), "c": 0.125})
+            es["_fine"] = rng.randint(6, 12)
         es["_rseed"] = rng.randrange(10 ** 9)
         run_case(es, rec)
 
@@ -131,6 +142,14 @@ def run_case(es, rec):
         return
     sim0.assign_sample_nums()
     rng = random.Random(es.get("_rseed", 0))
+    if es.get("_fine") and not es.get("_rounds"):
+        n0 = rng.randint(4, 12)
+        sizes, cur = [], n0
+        for _ in range(es["_fine"]):
+            sizes.append({cid: min(cur, len(sim0.cvr_list)) for cid in sim0.contests})
+            cur += rng.randint(1, 3)
+        es["_rounds"] = sizes
+        rec.count("fine_grained_histories")
     rounds = es.get("_rounds") or gen_rounds(rng, sim0)
     es["_rounds"] = rounds
     nums = [c.sample_num for c in sim0.cvr_list]
